@@ -88,6 +88,48 @@ def run(ctx):
         check_query(ctx, prog, qry[0])
     if nxt:
         check_next(ctx, prog, nxt[0][1], nxt[0][0])
+        check_start(ctx, prog, nxt[0][0])
+
+
+def check_start(ctx, prog, nxt):
+    """the iterator's FIRST place also comes out of the bit iterator: the constructor stores the place helper's result into the
+    place cursor on every path (a literal start place is scanned without being taken off the mask - so it is scanned again when
+    its bit comes up, or scanned although the query does not select it)"""
+    b = nxt.body
+    place = None
+    for st in b.stores:
+        if strip(st.root).kind == 'param' and len(st.fields()) == 1:
+            v = strip(st.value)
+            tgt = prog.resolve(v) if v is not None and v.kind == 'call' else None
+            if tgt is not None and any(c.callee_name() in ('next', 'find') for c in tgt.body.calls):
+                place = (st.fields()[0], tgt)
+    if place is None:
+        return
+    fld, helper = place
+    ctors = [f for f in prog.fns.values() if f.family == 'seg' and not f.is_closure and f.info.get('mir') and f.body.locals[0]['ty'].split('<')[0] == nxt.self_adt]
+    for f in ctors:
+        fb = f.body
+        if not any(v.kind == 'agg' and v.extra.get('akind') == 'adt' and v.extra.get('path') == nxt.self_adt for v in fb._vals):
+            continue        # hands on an iterator somebody else built
+        ok = False
+        # (a) a store `iter.<place> = helper(..)` that every return passes
+        for st in fb.stores:
+            v = strip(st.value)
+            if st.fields() and st.fields()[-1] == fld and v is not None and v.kind == 'call' and prog.resolve(v) is helper:
+                if all(r == st.point[0] or st.point[0] == 0 or not fb.cfg.paths_avoiding(0, r, {st.point[0]}) for r in fb.cfg.returns):
+                    ok = True
+        # (b) the aggregate is built with the helper's result, or with the exhaustion marker
+        for v in fb._vals:
+            if v.kind == 'agg' and v.extra.get('akind') == 'adt' and v.extra.get('path') == nxt.self_adt and v.extra.get('variant'):
+                names = v.extra['variant']['fields']
+                if fld in names and len(names) == len(v.args):
+                    init = strip(v.args[names.index(fld)])
+                    if init.kind == 'call' and prog.resolve(init) is helper:
+                        ok = True
+        ctx.add(RULE, f, 'start(first place from the mask)', 'ok' if ok else 'violation',
+                'the constructor takes the first place from the bit iterator (through %s)' % helper.name if ok else
+                'the iterator is handed out with a place cursor that was not taken from the bit iterator (%s is not called on every path of %s): the literal start place is scanned without its bit being consumed - scanned twice when the bit comes up (values reported twice), or scanned although the query does not select it' % (helper.name, f.name),
+                PROPS, f.line)
 
 
 def with_scan_helpers(prog, fn):
